@@ -21,21 +21,27 @@ Ev(e) == l <= NL /\ Trace[l].ev = e /\ l' = l + 1
 
 Fresh == /\ idxLast = 0 /\ stateH = 0 /\ resH = 0 /\ subLog = <<>>
          /\ queue = <<>> /\ pc = "idle" /\ cur = 0 /\ lastAcc = 0 /\ lastProc = 0
-         /\ up = FALSE /\ failed = FALSE /\ kf = {}
+         /\ up = FALSE /\ failed = FALSE /\ kf = {} /\ excused = {}
 TraceInit == l = 2 /\ TLCSet(1, 1) /\ Trace[1].ev = "reset" /\ Fresh
 TReset == /\ Ev("reset")
           /\ idxLast' = 0 /\ stateH' = 0 /\ resH' = 0 /\ subLog' = <<>>
           /\ queue' = <<>> /\ pc' = "idle" /\ cur' = 0 /\ lastAcc' = 0 /\ lastProc' = 0
-          /\ up' = FALSE /\ failed' = FALSE /\ kf' = {}
+          /\ up' = FALSE /\ failed' = FALSE /\ kf' = {} /\ excused' = {}
 
-(* Initialize succeeded: what the node reports must be the never-crashed node at the indexed height *)
+(* Initialize succeeded: what the node reports must be the never-crashed node at the indexed height.  The block at  *)
+(* the committed state height whose notification was cut off and is not delivered at start-up is the recorded       *)
+(* finding C18_committed_block_not_reannounced: it is excused (and marked), every other height is still demanded.    *)
 TStartOK ==
   /\ Ev("start") /\ T.res = "ok" /\ ~up /\ ~failed
   /\ T.la = idxLast /\ T.lp = idxLast /\ T.root = idxLast /\ T.results = idxLast
   /\ up' = TRUE /\ lastAcc' = idxLast /\ lastProc' = idxLast /\ stateH' = idxLast /\ resH' = idxLast
   /\ subLog' = subLog \o T.nn
   /\ queue' = <<>> /\ pc' = "idle" /\ cur' = 0
-  /\ UNCHANGED <<idxLast, failed, kf>>
+  /\ IF KF_C18_committed_block_not_reannounced /\ stateH \notin Range(T.nn)
+     THEN /\ kf' = kf \cup {"C18_committed_block_not_reannounced"} /\ excused' = excused \cup {stateH}
+          /\ PrintT(<<"KF_HIT", "C18_committed_block_not_reannounced", l>>)
+     ELSE UNCHANGED <<kf, excused>>
+  /\ UNCHANGED <<idxLast, failed>>
 
 (* Initialize failed: only explained inside the regions of the recorded findings *)
 TStartKF ==
@@ -46,21 +52,30 @@ TStartKF ==
   /\ PrintT(<<"KF_HIT", IF T.res = "panic" THEN "C18_restart_panics_one_uncommitted_block"
                         ELSE "C18_restart_refused_uncommitted_blocks", l>>)
 
+(* "accept h": the index write of h is durable (ConsensusAccept: index, then enqueue) *)
 TAccept == Ev("accept") /\ ConsensusAccept /\ idxLast' = T.h
-(* the async accepter ran processAccept of the next queued block up to the state commit (Take;WriteResults;CommitState) *)
-TCommit == /\ Ev("commit") /\ up /\ pc = "idle" /\ queue # <<>> /\ Head(queue) = T.h
-           /\ resH' = T.h /\ stateH' = T.h /\ cur' = T.h /\ pc' = "committed" /\ queue' = Tail(queue)
-           /\ UNCHANGED <<idxLast, subLog, lastAcc, lastProc, up, failed, kf>>
-(* ... or completely (Take;WriteResults;CommitState;Notify;Finish) *)
-TNotify == /\ Ev("notify") /\ up /\ pc = "idle" /\ queue # <<>> /\ Head(queue) = T.h
-           /\ resH' = T.h /\ stateH' = T.h /\ subLog' = Append(subLog, T.h) /\ lastProc' = T.h /\ queue' = Tail(queue)
-           /\ UNCHANGED <<idxLast, pc, cur, lastAcc, up, failed, kf>>
-TCrash  == Ev("crash") /\ Crash
+(* "commit h": the state of h is durable (Take;WriteResults;CommitState).  Bound to the durable effect only, so that a  *)
+(* commit of a block whose index write has not landed shows up as a violation of IndexAheadOfState.                    *)
+TCommit == /\ Ev("commit") /\ up /\ pc = "idle" /\ T.h = stateH + 1
+           /\ resH' = T.h /\ stateH' = T.h /\ cur' = T.h /\ pc' = "committed"
+           /\ queue' = (IF queue # <<>> /\ Head(queue) = T.h THEN Tail(queue) ELSE queue)
+           /\ UNCHANGED <<idxLast, subLog, lastAcc, lastProc, up, failed, kf, excused>>
+(* "notify h" after "commit h" (Notify;Finish) ... *)
+TNotifyC == /\ Ev("notify") /\ up /\ pc = "committed" /\ cur = T.h
+            /\ subLog' = Append(subLog, T.h) /\ lastProc' = T.h /\ pc' = "idle"
+            /\ UNCHANGED <<idxLast, stateH, resH, queue, cur, lastAcc, up, failed, kf, excused>>
+(* ... or "notify h" alone: the whole processAccept of h (Take;WriteResults;CommitState;Notify;Finish) *)
+TNotify == /\ Ev("notify") /\ up /\ pc = "idle" /\ T.h = stateH + 1
+           /\ resH' = T.h /\ stateH' = T.h /\ subLog' = Append(subLog, T.h) /\ lastProc' = T.h
+           /\ queue' = (IF queue # <<>> /\ Head(queue) = T.h THEN Tail(queue) ELSE queue)
+           /\ UNCHANGED <<idxLast, pc, cur, lastAcc, up, failed, kf, excused>>
+(* the process dies; when the durable image was captured (idx >= 0) it must be the specification's *)
+TCrash  == Ev("crash") /\ Crash /\ (T.idx < 0 \/ (T.idx = idxLast /\ T.state = stateH))
 TFinal  == /\ Ev("final") /\ up /\ pc = "idle" /\ queue = <<>> /\ UNCHANGED vars
            /\ T.la = idxLast /\ T.lp = lastProc /\ T.root = stateH /\ T.results = resH
 TStop   == Ev("stop") /\ up /\ pc = "idle" /\ queue = <<>> /\ Crash
 
-TraceNext == TReset \/ TStartOK \/ TStartKF \/ TAccept \/ TCommit \/ TNotify \/ TCrash \/ TFinal \/ TStop
+TraceNext == TReset \/ TStartOK \/ TStartKF \/ TAccept \/ TCommit \/ TNotifyC \/ TNotify \/ TCrash \/ TFinal \/ TStop
 TraceSpec == TraceInit /\ [][TraceNext]_tvars
 
 HWM      == TLCSet(1, IF TLCGet(1) > l - 1 THEN TLCGet(1) ELSE l - 1)
